@@ -8,6 +8,13 @@ def build(repo, tier, seed):
     b["assumptions"].append("Dataset: evaluates to callback(implementation), both evaluated under mix(mix(default options, caller's options), pre-set options), proved compositionally: the temporaries "
                             "of Dataset._composed are used through the C05 specifications proved for WithOptions, Cached, Logged, Computation and Apply (spec_c05.tower_contracts), "
                             "effects that do not fail (region F15) and a sound cache backend (B-sound)")
+    from . import builders_c05
+    bd_vcs, bd_syn, bd_und = builders_c05.build(repo)
+    b["vcs"] += bd_vcs
+    b["syntactic"] += bd_syn
+    b["undecided"] += bd_und
+    b["assumptions"].append("the builder API returns what it says (group builders:C05): apply/>>/bind build Apply/Bind(self, function), case/when/otherwise keep the dispatch, append the new case LAST and "
+                            "set the default, cached wraps with the given or a fresh memory cache, WithDefaultOptions is a non-forced WithOptions; none evaluates anything")
     from . import ctor_c05
     b["syntactic"] += ctor_c05.obligations(repo)
     b["assumptions"].append("constructors store their arguments faithfully: AST obligation over __init__ of the 29 classes reaching the labrea ABCs (every field is assigned from its own "
